@@ -406,6 +406,8 @@ type d8 struct {
 	byteVars     map[string]bool         // integer variables that hold a byte (width 8)
 	ghostNil     map[string]bool         // []byte parameters compared with nil: they get a Boolean companion parameter <name>IsNil
 	isParam      map[string]bool
+	ptrParam     map[string]bool   // parameters of pointer type
+	outWritten   bool              // the out-parameter has been written
 	namedRes     []types.Object    // named results of the function being translated
 	pendingFacts [][2]string       // operands of a max(...) just evaluated: the variable it is assigned to exceeds both
 	optResult    map[int]bool      // *big.Int results returned from a variable declared `var x *big.Int` (may be nil)
@@ -432,6 +434,9 @@ func (d *d8) declare(name, kind string) {
 }
 
 func (d *d8) wrote(root string) {
+	if d.ent != nil && d.ent.out != "" && root == d.ent.out {
+		d.outWritten = true
+	}
 	for _, w := range d.wstack {
 		w[root] = true
 	}
@@ -591,6 +596,7 @@ func (d *d8) lvalue(e ast.Expr, pre *[]*dnode) *dloc {
 		return d.lvalue(x.X, pre)
 	case *ast.Ident:
 		if l, ok := d.env[d.obj(x)]; ok {
+			d.aliasHazard(x, l)
 			return l
 		}
 		// package-level variables used as read-only constants
@@ -646,7 +652,10 @@ func (d *d8) lvalue(e ast.Expr, pre *[]*dnode) *dloc {
 			case "P":
 				return &dloc{root: "P", kind: "big", ro: true}
 			case "ByteSize":
-				return &dloc{root: "32", kind: "int", ro: true}
+				// the constant the source initialises the field with (ByteSize: 256 / 8)
+				if v := d.pkgStructFieldConst("curveParams", "ByteSize"); v != "" {
+					return &dloc{root: v, kind: "int", ro: true}
+				}
 			}
 		}
 		base := d.lvalue(x.X, pre)
@@ -783,6 +792,60 @@ func (d *d8) pkgBytes(id *ast.Ident) string {
 									if ok1 && len(es) == 1 && ok2 && tv.Value != nil {
 										d.pv[name] = "List.replicate " + tv.Value.ExactString() + " " + es[0]
 										return name
+									}
+								}
+							}
+						}
+					}
+				}
+			}
+		}
+	}
+	return ""
+}
+
+// aliasHazard: the translation gives every pointer parameter its own value.  That is the Go semantics only if the caller
+// passes distinct objects — or if the function has finished reading a parameter before it first writes the out-parameter
+// of the same type (then `f(k, p, p)` behaves like `f(k, p, r)`).  A read of such a parameter AFTER the out-parameter was
+// written would make the result depend on aliasing: rejected.
+func (d *d8) aliasHazard(n ast.Node, l *dloc) {
+	if d.ent == nil || d.ent.out == "" || !d.outWritten || l.root == d.ent.out || !d.isParam[l.root] {
+		return
+	}
+	if out, ok := d.stype[d.ent.out]; ok && d.stype[l.root] == out && isPointerParam(d, l.root) {
+		d.fail(n, "parameter %s is read after the out-parameter %s was written (the result would depend on whether the caller aliases them)", l.root, d.ent.out)
+	}
+}
+
+func isPointerParam(d *d8, name string) bool { return d.ptrParam[name] }
+
+// pkgStructFieldConst: the constant a package-level struct variable's field is initialised with (var v = T{…, f: c, …})
+func (d *d8) pkgStructFieldConst(varName, field string) string {
+	for _, p := range d.pkgs {
+		if p.pkg.Path() != d.p.pkg.Path() {
+			continue
+		}
+		for _, f := range p.files {
+			for _, dcl := range f.Decls {
+				gd, ok := dcl.(*ast.GenDecl)
+				if !ok || gd.Tok != token.VAR {
+					continue
+				}
+				for _, sp := range gd.Specs {
+					vs := sp.(*ast.ValueSpec)
+					for i, nm := range vs.Names {
+						if nm.Name != varName || i >= len(vs.Values) {
+							continue
+						}
+						cl, ok := vs.Values[i].(*ast.CompositeLit)
+						if !ok {
+							return ""
+						}
+						for _, el := range cl.Elts {
+							if kv, ok := el.(*ast.KeyValueExpr); ok {
+								if k, ok := kv.Key.(*ast.Ident); ok && k.Name == field {
+									if tv, ok := p.info.Types[kv.Value]; ok && tv.Value != nil && tv.Value.Kind() == constant.Int {
+										return tv.Value.ExactString()
 									}
 								}
 							}
@@ -3478,7 +3541,7 @@ func passDrivers(pkgs []*Pkg) (string, []string, []string) {
 			continue
 		}
 		d := &d8{pkgs: pkgs, p: p, fn: ent.key, ent: ent, env: map[types.Object]*dloc{}, known: map[types.Object]bool{}, stype: map[string]string{},
-			loopVar: map[types.Object]string{}, pv: pv, errTerm: map[types.Object]string{}, facts: map[string]bool{}, lenDef: map[string]string{}, extCopies: map[string]bool{}, byteVars: map[string]bool{}, ghostNil: map[string]bool{}, isParam: map[string]bool{}}
+			loopVar: map[types.Object]string{}, pv: pv, errTerm: map[types.Object]string{}, facts: map[string]bool{}, lenDef: map[string]string{}, extCopies: map[string]bool{}, byteVars: map[string]bool{}, ghostNil: map[string]bool{}, isParam: map[string]bool{}, ptrParam: map[string]bool{}}
 		d.results = p.info.Defs[fd.Name].Type().(*types.Signature).Results()
 		var psig []string
 		var paramNames []string
@@ -3504,6 +3567,9 @@ func passDrivers(pkgs []*Pkg) (string, []string, []string) {
 			}
 			d.declare(id.Name, k)
 			d.isParam[id.Name] = true
+			if _, isPtr := o.Type().(*types.Pointer); isPtr {
+				d.ptrParam[id.Name] = true
+			}
 			d.env[o] = &dloc{root: id.Name, kind: k}
 			psig = append(psig, fmt.Sprintf("(%s : %s)", id.Name, leanType[k]))
 			if k == "reader" {
